@@ -13,6 +13,7 @@ from . import common
 ID = "C03"
 LEVEL = "exploration"
 BATCH = 50
+PROBES_EXPECTED = ['probe:read-before-later-write', 'probe:twin-compared', 'probe:default-injected-by-load']
 TIERS = {"quick": {"runs": 14000, "wall": 50}, "thorough": {"runs": 600000, "wall": 840}}
 RULE = ("each run draws a program, knobs (parser, policy, set-order salt) and a history of 4-30 set/unset/reset/reset-menu/load/restart "
         "operations interleaved with partial reads (drawn subset, order and attributes; 40% aimed at options other expressions mention); "
